@@ -141,11 +141,28 @@ def run(tier):
             s = io.StringIO()
             L.Bf3File.write_bf3_format(s, {}, binary)
             L.rec_read(rec, s.getvalue(), key, True, False, wd)
+        # payloads longer than 256 / 4096 bytes: the genuine file, and the file with ONE payload byte changed near the start,
+        # in the middle and in the last block (the MAC covers every byte, however long the payload)
+        large_ok = 0
+        for n in ((300, 4128) if tier == "quick" else (257, 300, 4096, 4097, 4128, 8200)):
+            key = L.gen_key(r)
+            f = L.Bf3File({}, [L.mk_comp({0x10: b"\x01"}, bytes(r.randrange(1, 256) for _ in range(n)))])
+            binary = L.BF3_FILE_SIG + f.to_binary(5, key)
+            for at in (None, len(binary) - n + 3, len(binary) - n // 2, len(binary) - 2):
+                b2 = bytearray(binary)
+                if at is not None:
+                    b2[at] ^= 0x40
+                s = io.StringIO()
+                L.Bf3File.write_bf3_format(s, {}, bytes(b2))
+                ev = L.rec_read(rec, s.getvalue(), key, True, False, wd, _cost=max(1, n // 8))
+                large_ok += 1 if (at is None and ev["kind"] == "ok") else 0
         can = dict([e for e in rec.events if e["kind"] == "raise"][0])
         can["kind"] = "ok"
         rec.add(can)
         rej, st = C.validate(rec.events, wd)
         C.report_rejections(rep, "C05", rec, rej, {can["tid"]})
+        if large_ok == 0 and not rep.violations:
+            raise MachineryError("non-vacuity: no genuine large file was accepted by the real reader")
         rep.add_trace("Trace_Bec2 bf3.read: random multi-field edits of real files judged by the concrete Parse", st, len(rec.events) - 1,
                       extra={"accepted": sum(1 for e in rec.events if e["kind"] == "ok") - 1})
     rep.assumptions += ["AES.tla", "declared length >= 1 (the object model cannot represent 0)"]
